@@ -7,9 +7,16 @@ Strings are `List Char`.  External pieces are NOT modelled but specified and
 checked per case by the harness: `fnmatch` on the restricted glob grammar
 (`*`, `?`, `[…]`/`[!…]` with plain items and ranges; anything else → the model
 answers "outside grammar"), `urlutils.join` / `urlutils.basename` of dromedary
-on plain relative paths, configobj's parser (the harness feeds the model the
-sections as the real parser produced them) and configobj's quoting (the round
-trip is stated over an abstract quote/unquote pair).
+on plain relative paths.  For the location stream the harness feeds the model
+the sections as the real parser produced them.  The store round trip IS
+modelled (second half of this file): `Stack.set`'s `store.quote`
+(= configobj `_quote` with list_values on, incl. breezy's `_get_triple_quote`
+override), `ConfigObj.write` of one section of scalar options (`_quote` with
+list_values off), the reader's line splitting (`str.splitlines` + rstrip of
+CR/LF), the parser's `_keyword` / `_nolistvalue` / triple-quote regexes with
+their lazy (first-match) semantics, multi-line values, and
+`IniFileStore.unquote`.  Lines outside that fragment (indented lines, quoted
+keys, nested or quoted section markers) make the model answer "outside".
 -/
 namespace BreezyVerif.C49
 
@@ -331,16 +338,22 @@ def matchingSections (noName : Option (List (Str × Str))) (secs : List PSec) (l
 def sortedSections (noName : Option (List (Str × Str))) (secs : List PSec) (location : Str) : List LocSection :=
   ((matchingSections noName secs location).mergeSort keyGe).map (·.2.2)
 
-/-- `LocationMatcher.get_sections` AS WRITTEN: the loop breaks BEFORE yielding a
-section whose `ignore_parents` is true -/
-def locationSections (noName : Option (List (Str × Str))) (secs : List PSec) (location : Str) : List LocSection :=
-  (sortedSections noName secs location).takeWhile fun s => !ignoring s
-
-/-- what the documentation (and the older `LocationConfig`) describe: the
-ignoring section itself still counts, its parents do not -/
+/-- the cut `ignore_parents` makes: a section whose `ignore_parents` is true is
+itself still consulted, nothing after it is -/
 def cutAfterIgnoring : List LocSection → List LocSection
   | [] => []
   | s :: r => if ignoring s then [s] else s :: cutAfterIgnoring r
+
+/-- `LocationMatcher.get_sections`: most specific first; the loop yields a
+section and THEN breaks if its `ignore_parents` is true -/
+def locationSections (noName : Option (List (Str × Str))) (secs : List PSec) (location : Str) : List LocSection :=
+  cutAfterIgnoring (sortedSections noName secs location)
+
+/-- HISTORICAL (before fix 5b060e5): the loop broke BEFORE yielding the ignoring
+section.  Kept so that the harness can name the regression if the live code
+ever behaves like this again (variant `excl` of the driver). -/
+def locationSectionsExcl (noName : Option (List (Str × Str))) (secs : List PSec) (location : Str) : List LocSection :=
+  (sortedSections noName secs location).takeWhile fun s => !ignoring s
 
 /-! ## `StartingPathMatcher` -/
 
@@ -375,10 +388,283 @@ def stackGet (secs : List LocSection) (name : Str) : Res :=
   | Option.none => .none
   | some v => if hasRef v then .unmodelled else .val (unquote v)
 
-/-! ## abstract store (round trip) -/
+/-! ## store (round trip) -/
 
 def setOpt (k v : Str) : List (Str × Str) → List (Str × Str)
   | [] => [(k, v)]
   | (a, w) :: r => if a = k then (a, v) :: r else (a, w) :: setOpt k v r
+
+/-! ### configobj `_quote` -/
+
+/-- Python `str.isspace` = `\s` of `re` on str patterns = what `str.strip()` strips -/
+def isSpace (c : Char) : Bool :=
+  let n := c.toNat
+  (9 ≤ n && n ≤ 13) || (28 ≤ n && n ≤ 32) || n == 0x85 || n == 0xa0 || n == 0x1680 ||
+  (0x2000 ≤ n && n ≤ 0x200a) || n == 0x2028 || n == 0x2029 || n == 0x202f || n == 0x205f || n == 0x3000
+
+/-- the line boundaries of `str.splitlines` -/
+def isLineBreak (c : Char) : Bool :=
+  let n := c.toNat
+  (10 ≤ n && n ≤ 13) || (28 ≤ n && n ≤ 30) || n == 0x85 || n == 0x2028 || n == 0x2029
+
+/-- `s.find(p) != -1` -/
+def hasSub (p : Str) : Str → Bool
+  | [] => p.isEmpty
+  | c :: r => p.isPrefixOf (c :: r) || hasSub p r
+
+def dq3 : Str := ['"', '"', '"']
+def sq3 : Str := ['\'', '\'', '\'']
+
+/-- configobj `wspace_plus` (blank, CR, LF, VT, TAB and the two quotes) -/
+def wspacePlus (c : Char) : Bool :=
+  c == ' ' || c == '\r' || c == '\n' || c == '\x0b' || c == '\t' || c == '\'' || c == '"'
+
+/-- `_get_single_quote`; `none` = ConfigObjError -/
+def singleQuote (v : Str) : Option Str :=
+  if v.contains '\'' && v.contains '"' then none
+  else if v.contains '"' then some ('\'' :: v ++ ['\''])
+  else some ('"' :: v ++ ['"'])
+
+/-- `_get_triple_quote` as it behaves in breezy: `breezy.config.ConfigObj` swaps
+the two quote kinds configobj would choose (`_has_triplequote_bug()` compares a
+format string with a bare triple quote and is therefore always true), so a value
+that contains three double quotes is wrapped in three single quotes and any
+other value in three double quotes -/
+def tripleQuote (v : Str) : Option Str :=
+  if hasSub dq3 v && hasSub sq3 v then none
+  else if hasSub dq3 v then some (sq3 ++ v ++ sq3)
+  else some (dq3 ++ v ++ dq3)
+
+/-- `ConfigObj._quote(value, multiline=True)` for a str value; `listValues` is
+`self.list_values` (on inside `IniFileStore.quote`, off inside `ConfigObj.write`);
+`none` = ConfigObjError ("cannot be safely quoted") -/
+def cquote (listValues : Bool) (v : Str) : Option Str :=
+  match v.head?, v.getLast? with
+  | some h, some l =>
+    let nl := v.contains '\n'
+    let hash := v.contains '#'
+    let both := v.contains '\'' && v.contains '"'
+    let noListsNoQuotes := !listValues && !nl && !hash
+    let needTriple := both || nl
+    let hashTriple := !needTriple && both && hash
+    let checkSingle := (noListsNoQuotes || !needTriple) && !hashTriple
+    if checkSingle then
+      if !listValues then some v
+      else if nl then none
+      else if !wspacePlus h && !wspacePlus l && !v.contains ',' then
+        (if hash then singleQuote v else some v)
+      else singleQuote v
+    else tripleQuote v
+  | _, _ => some ['"', '"']
+
+/-! ### configobj parser: one value -/
+
+/-- `\s*(#.*)?$` matches all of `s` (also: `s.strip()` is empty or starts with `#`) -/
+def tailOk (s : Str) : Bool :=
+  match s.dropWhile isSpace with
+  | [] => true
+  | c :: _ => c == '#'
+
+/-- `(.*?)q\s*(#.*)?$` anchored at the start of `s`: the SHORTEST group such
+that `q` follows and the rest is blank or a comment; `none` = no match -/
+def lazyUntil (q : Str) : Str → Option Str
+  | [] => if q.isEmpty then some [] else none
+  | c :: r =>
+    if q.isPrefixOf (c :: r) && tailOk ((c :: r).drop q.length) then some []
+    else (lazyUntil q r).map (c :: ·)
+
+/-- `.*?` followed by `\s*(#.*)?$`: always matches -/
+def lazyPlain : Str → Str
+  | [] => []
+  | c :: r => if tailOk (c :: r) then [] else c :: lazyPlain r
+
+/-- `_nolistvalue` (list_values off): group 1, NOT unquoted; `none` = no match
+(SyntaxError, "Parse error in value") -/
+def nolistValue : Str → Option Str
+  | [] => some []
+  | c :: r =>
+    if c == '"' then (lazyUntil ['"'] r).map fun g => '"' :: g ++ ['"']
+    else if c == '\'' then (lazyUntil ['\''] r).map fun g => '\'' :: g ++ ['\'']
+    else if c == '#' then some []
+    else some (c :: lazyPlain r)
+
+/-- the `while` loop of `_multiline`: lines are appended until one contains the quote;
+the result is the value, the number of following lines consumed and what is
+left of the closing line (blanks and an optional comment) -/
+def multiRest (q3 : Str) (acc : Str) (n : Nat) : List Str → Option (Str × Nat × Str)
+  | [] => none
+  | l :: ls =>
+    if hasSub q3 l then (lazyUntil q3 l).map fun g => (acc ++ '\n' :: g, n + 1, l.drop (g.length + 3))
+    else multiRest q3 (acc ++ '\n' :: l) (n + 1) ls
+
+/-- `_multiline(value, …)` for a value starting with the triple quote `q3` -/
+def tripleValue (q3 : Str) (x : Str) (rest : List Str) : Option (Str × Nat × Str) :=
+  let nv := x.drop 3
+  match lazyUntil q3 nv with
+  | some g => some (g, 0, nv.drop (g.length + 3))
+  | none => if hasSub q3 nv then none else multiRest q3 nv 0 rest
+
+/-- the value part of a `key = value` line (what follows `=\s*`) and the lines after it
+↦ the string stored for the key, the number of following lines consumed and the
+unparsed tail (blanks + inline comment); `none` = parse error -/
+def parseOptValue (x : Str) (rest : List Str) : Option (Str × Nat × Str) :=
+  if dq3.isPrefixOf x then tripleValue dq3 x rest
+  else if sq3.isPrefixOf x then tripleValue sq3 x rest
+  else (nolistValue x).map fun g => (g, 0, x.drop g.length)
+
+/-! ### configobj parser: lines -/
+
+/-- `content.splitlines(True)` followed by `line.rstrip('\r\n')`: CR, LF and
+CR LF end a line and are dropped, the other boundaries end a line and stay -/
+def splitLinesAux (cur : Str) (afterCR : Bool) : Str → List Str
+  | [] => if cur.isEmpty then [] else [cur.reverse]
+  | c :: r =>
+    if afterCR && c == '\n' then splitLinesAux cur false r
+    else if c == '\r' then cur.reverse :: splitLinesAux [] true r
+    else if c == '\n' then cur.reverse :: splitLinesAux [] false r
+    else if isLineBreak c then (c :: cur).reverse :: splitLinesAux [] false r
+    else splitLinesAux (c :: cur) false r
+
+def splitLines (content : Str) : List Str := splitLinesAux [] false content
+
+inductive KwRes where
+  | outside                 -- not in the modelled fragment
+  | nomatch                 -- "matched as neither section nor keyword"
+  | kv (key value : Str)
+  | header (name : Str)     -- a plain `[name]` section marker
+  deriving DecidableEq, Repr
+
+/-- `\s*=` matches at the start of `s` -/
+def startsEq (s : Str) : Bool := (s.dropWhile isSpace).head? == some '='
+
+/-- what follows `\s*=\s*` -/
+def afterEq (s : Str) : Str := ((s.dropWhile isSpace).drop 1).dropWhile isSpace
+
+/-- `_keyword` for an unquoted key: the key is the shortest non-empty prefix that
+is followed by `\s*=`; the value is what follows `=\s*`; `key` is reversed -/
+def kwScan (key : Str) : Str → KwRes
+  | [] => .nomatch
+  | c :: r => if startsEq (c :: r) then .kv key.reverse (afterEq (c :: r)) else kwScan (c :: key) r
+
+/-- ASCII letters, digits, `_`, `.`, `-` -/
+def keyChar (c : Char) : Bool :=
+  let n := c.toNat
+  (48 ≤ n && n ≤ 57) || (65 ≤ n && n ≤ 90) || (97 ≤ n && n ≤ 122) || n == 95 || n == 46 || n == 45
+
+/-- ASCII letters and `_` -/
+def keyStart (c : Char) : Bool :=
+  let n := c.toNat
+  (65 ≤ n && n ≤ 90) || (97 ≤ n && n ≤ 122) || n == 95
+
+def secNameChar (c : Char) : Bool := keyChar c || c.toNat == 47
+
+/-- a `[name]` line with a plain name and nothing else -/
+def headerLine (r : Str) : KwRes :=
+  match r.reverse with
+  | e :: n => if e == ']' && !n.isEmpty && n.all secNameChar then .header n.reverse else .outside
+  | [] => .outside
+
+/-- one non-blank, non-comment line.  Leading blanks are the indentation group
+`^(\s*)` of both regexes (greedy: the key starts at the first non-blank); when the
+first non-blank is a quote or `=` the regex engine would backtrack into the
+indentation, which is outside the fragment. -/
+def classifyLine (l : Str) : KwRes :=
+  match l.dropWhile isSpace with
+  | [] => .outside
+  | c :: r =>
+    if c == '[' then headerLine r
+    else if c == '\'' || c == '"' || c == '#' then .outside
+    else if c == '=' then (if l.head?.any isSpace then .outside else .nomatch)
+    else kwScan [c] r
+
+/-- one loaded option: section, key, stored string, inline comment (`[]` or `#…`) -/
+structure Entry where
+  sec : Option Str
+  key : Str
+  raw : Str
+  comment : Str
+  deriving DecidableEq, Repr
+
+inductive Load where
+  | outside
+  | error
+  | opts (l : List Entry)     -- in file order
+  deriving DecidableEq, Repr
+
+/-- `ConfigObj._parse` on the modelled fragment; `skip` = lines already consumed
+by a multi-line value, `sec` = current section, `seen` = section names so far,
+`acc` = reversed result.  An error does not stop configobj's parser, but the load
+fails at the end whatever follows. -/
+def parseLines (skip : Nat) (sec : Option Str) (seen : List Str) (acc : List Entry) :
+    List Str → Load
+  | [] => .opts acc.reverse
+  | l :: ls =>
+    match skip with
+    | k + 1 => parseLines k sec seen acc ls
+    | 0 =>
+      if tailOk l then parseLines 0 sec seen acc ls
+      else match classifyLine l with
+        | .outside => .outside
+        | .nomatch => .error
+        | .header n =>
+          if seen.contains n || acc.any (fun t => t.sec.isNone && t.key == n) then .error
+          else parseLines 0 (some n) (n :: seen) acc ls
+        | .kv k x =>
+          match parseOptValue x ls with
+          | none => .error
+          | some (raw, used, tail) =>
+            if acc.any (fun t => t.sec == sec && t.key == k) then .error
+            else parseLines used sec seen (⟨sec, k, raw, tail.dropWhile isSpace⟩ :: acc) ls
+
+def loadContent (content : Str) : Load := parseLines 0 none [] [] (splitLines content)
+
+/-! ### `ConfigObj.write` of one section of scalar options -/
+
+/-- keys the model writes verbatim (`_quote(…, multiline=False)` with list_values off
+leaves any non-empty string without `#`/newline alone) -/
+def plainKey (k : Str) : Bool :=
+  match k with
+  | [] => false
+  | c :: r => keyStart c && r.all keyChar
+
+def plainSec (n : Str) : Bool := !n.isEmpty && n.all secNameChar
+
+def eqSep : Str := [' ', '=', ' ']
+
+/-- the option lines `key = value` + inline comment; `none` = ConfigObjError from `_quote`,
+or a key outside the fragment -/
+def writeOptLines : List (Str × Str × Str) → Option Str
+  | [] => some []
+  | (k, raw, comment) :: r =>
+    if plainKey k then
+      match cquote false raw, writeOptLines r with
+      | some q, some rest => some (k ++ eqSep ++ q ++ comment ++ '\n' :: rest)
+      | _, _ => none
+    else none
+
+/-- options `(key, stored string, inline comment)` of one section (`none` = the no-name section) -/
+def writeSection (sec : Option Str) (opts : List (Str × Str × Str)) : Option Str :=
+  match sec with
+  | none => writeOptLines opts
+  | some n => if plainSec n then (writeOptLines opts).map fun b => '[' :: n ++ ']' :: '\n' :: b else none
+
+/-- `IniFileStore.quote` (what `Stack.set` stores): `_quote` with list_values on.
+`blankfix = true` is the variant with the fix proposed for finding
+roundtrip-unicode-blank-at-end (selected by the harness only if the live code
+behaves so): a value that `_quote` leaves alone although `value != value.strip()`
+gets single quotes from `_get_single_quote` -/
+def storeQuote (blankfix : Bool) (v : Str) : Option Str :=
+  match cquote true v with
+  | some q =>
+    if blankfix && q == v && (v.head?.any isSpace || v.getLast?.any isSpace) then singleQuote v else some q
+  | none => none
+
+/-- `Stack.set` of every `(key, value)` in order on an empty section: the stored strings -/
+def quoteAll (blankfix : Bool) : List (Str × Str) → Option (List (Str × Str × Str))
+  | [] => some []
+  | (k, v) :: r =>
+    match storeQuote blankfix v, quoteAll blankfix r with
+    | some q, some rest => some ((k, q, []) :: rest)
+    | _, _ => none
 
 end BreezyVerif.C49
